@@ -46,4 +46,7 @@ def check(model, tier):
     purity.r_engine_stateless(ctx, "R02.8", _SQL, ("to_executable", "to_payload", "conform", "append_unary", "append_binary"))
     sqlplace.r_sort_mapping(ctx, "R02.9")
     run.assume("within one SELECT the clauses act in the order WHERE -> ORDER BY -> select list -> DISTINCT -> OFFSET/LIMIT")
+    from ..rules import bounds as _bounds
+
+    _bounds.r06_7_bound_formulas(ctx, rule="R02.10")
     return run
